@@ -257,7 +257,7 @@ Definition step (env : tenv) (st : tstate) (c : call) : tstate * option (N * N) 
           last_field_was_flexible_array := true |}, None)
   | AddTailPadding size _ =>
       if negb (force_explicit_padding env) then (st, None)
-      else if is_rust_union env then (st, None)
+      else if is_union env then (st, None)   (* `self.comp.is_union()` since fix 1ace9416 (was: self.is_rust_union) *)
       else if last_field_was_flexible_array st then (st, None)
       else if latest_offset st =? size then (st, None)
       else
